@@ -705,6 +705,12 @@ func main() {
 				tickRuns.Store(0)
 				mu.Unlock()
 				time.Sleep(ts(time.Duration(ms) * time.Millisecond))
+				// a box busier than when the time scale was measured may not have run the ticker goroutine yet: when no
+				// tick has started an attempt, wait up to three more windows (a tick never starts one below the
+				// threshold, so waiting longer cannot turn "none due" into "taken")
+				for extra := 0; extra < 3 && tickRuns.Load() == 0; extra++ {
+					time.Sleep(ts(time.Duration(ms) * time.Millisecond))
+				}
 				mu.Lock()
 				fmt.Fprintf(out, "Z taken=%d ls=%d\n", tickTaken.Load(), in.db.VerifLatestSnapshot())
 				out.Flush()
